@@ -126,7 +126,7 @@ def check_kernel(case, ctx=None):
 
 # ------------------------------------------------------------------------ (b) IR programs
 INT_LITS = [0, 0, 1, 1, 2]
-FLT_LITS = [0.0, 0.0, 1.0, 1.0, 0.5, 1.5, 2.5]
+FLT_LITS = [0.0, 0.0, 1.0, 1.0, 0.5, 1.5, 2.5, 3.5, 0.1, 3.0]
 INT_ENV = ["x0", "x1", "x2", "x3"]
 FLT_ENV = ["f0", "f1", "f2", "f3"]
 N_OUT = 6
@@ -271,7 +271,10 @@ def ir_programs(draw, tier):
     for _ in range(4):
         envs.append({
             "ints": [draw(st.integers(-3, 3)) for _ in range(4)],
-            "floats": [draw(st.sampled_from([0.0, 1.0, -1.5, 0.5, 2.25, 3.0, -2.0, 0.125])) for _ in range(4)],
+            # dyadic values keep most programs exact; the others (0.1, 1/3, 1e-300, 1e200, ...) expose rewrites that
+            # are only equal up to rounding or that overflow/underflow differently
+            "floats": [draw(st.sampled_from([0.0, 1.0, -1.5, 0.5, 2.25, 3.0, -2.0, 0.125, 0.1, 1 / 3, 0.7, 1e-300, 1e200,
+                                            123456.789, -0.3])) for _ in range(4)],
         })
     return {"body": body, "ret": ret, "envs": envs}
 
@@ -340,6 +343,8 @@ def run_program(fn, env, scoping="c"):
     st_.fields["dimensions"] = Ptr(m.new_block("int", 4, "input", "t.dimensions", list(env["ints"])))
     st_.fields["vals"] = Ptr(m.new_block("float", 4 + N_OUT, "struct", "t.vals", list(env["floats"]) + [0.0] * N_OUT))
     rv = Interp(m, output_name="t", scoping=scoping).run(fn, [st_])
+    if m.nonfinite_seen:
+        raise Trap("non-finite", "a floating-point operation produced inf or nan")
     return rv, heap_image(m), set(m.access), m.steps
 
 
